@@ -29,9 +29,10 @@ Proof. exact lastFin_ge_iff. Qed.
 Print Assumptions C02_lastFin_ge_iff.
 
 (** The wraps-- / relIdx = N-1 juggling of generateTimelineEntries computes [lastFin]:
-    [wraps * repDuration] ticks are exactly [wraps * loopMS] ms. *)
+    [wraps * repDuration] ticks are exactly [wraps * loopMS] ms.  Every offset [0 <= atoMS], also one
+    that carries the relative time beyond the end of the table (repair 11d2203). *)
 Theorem C02_edgeIdx_spec : forall r loopMS, wf r loopMS -> forall wraps relMS atoMS,
-  0 <= relMS < loopMS -> 0 <= atoMS -> atoMS * ts r <= 1000 * en (segAt r 0) ->
+  0 <= relMS -> 0 <= atoMS ->
   let '(w, i) := edgeIdx r wraps relMS atoMS in
   0 <= i < nsegs r /\
   w * nsegs r + i = lastFin r (wraps * repDuration r + Z.quot ((relMS + atoMS) * ts r) 1000).
@@ -40,14 +41,13 @@ Print Assumptions C02_edgeIdx_spec.
 
 (** The SegmentTimeline of the MPD is exactly the window [first, last] of the looped timeline
     (start number, every (t, d) after expansion of the repeat counts, and the last-segment
-    information used for publishTime); it is empty iff no segment has ended.
-    [atoMS * ts <= 1000 * en_0]: the availabilityTimeOffset is at most the first segment's duration. *)
+    information used for publishTime); it is empty iff no segment has ended. *)
 Theorem C02_timeline_is_window : forall r loopMS, wf r loopMS -> forall c now tsbdMS atoMS,
-  startS c * 1000 <= now -> 0 <= tsbdMS -> 0 <= atoMS -> atoMS * ts r <= 1000 * en (segAt r 0) ->
+  startS c * 1000 <= now -> 0 <= tsbdMS -> 0 <= atoMS ->
   let se := generateTimelineEntries r (calcWrapTimes loopMS c now tsbdMS) atoMS in
   let last := window_last r c atoMS now in
   let first := window_first r c atoMS now tsbdMS in
-  (last < 0 -> se_startNr se = -1 /\ se_entries se = []) /\
+  (last < 0 -> se_startNr se = -1 /\ se_entries se = [] /\ se_lsi_nr se = -1) /\
   (0 <= last ->
      first <= last /\ se_startNr se = first /\
      expand (se_entries se) = window_td r first last /\
@@ -111,7 +111,6 @@ Print Assumptions C02_next_too_early_number.
     MPD model is served by the server model, by time [t] and by number startNumber + j. *)
 Theorem C02_mpd_listed_served : forall r loopMS, wf r loopMS -> forall c atoMS now j t d,
   startS c * 1000 <= now -> 0 <= tsbdS c -> ato c = Some atoMS -> 0 <= atoMS ->
-  atoMS * ts r <= 1000 * en (segAt r 0) ->
   let se := generateTimelineEntries r (calcWrapTimes loopMS c now (1000 * tsbdS c)) atoMS in
   nth_error (expand (se_entries se)) j = Some (t, d) ->
   ((0 < j)%nat \/ E r (se_startNr se + 1) - S r (se_startNr se + 1) <= tsbdMarginS * ts r) ->
@@ -125,7 +124,6 @@ Print Assumptions C02_mpd_listed_served.
 
 Theorem C02_mpd_next_too_early : forall r loopMS, wf r loopMS -> forall c atoMS now tsbdMS,
   startS c * 1000 <= now -> 0 <= tsbdMS -> ato c = Some atoMS -> 0 <= atoMS ->
-  atoMS * ts r <= 1000 * en (segAt r 0) ->
   let se := generateTimelineEntries r (calcWrapTimes loopMS c now tsbdMS) atoMS in
   0 <= se_startNr se ->
   se_lsi_start se + se_lsi_dur se < two64 -> 0 <= startNr c -> startNr c + (se_lsi_nr se + 1) < two32 ->
@@ -152,19 +150,22 @@ Theorem C02_first_entry_gone :
 Proof. exact first_gone_witness. Qed.
 Print Assumptions C02_first_entry_gone.
 
-(** Why [atoMS * ts <= 1000 * en_0] is there (finding): 4 x 2 s loop, availabilityTimeOffset 2.5 s,
-    now = 7.9 s.  Segment 4 is available from 7.5 s on (200 from the server) but the MPD ends with
-    segment 3 until 8 s: the segment just after the MPD's live edge is not refused. *)
-Theorem C02_big_ato_refuted :
-  exists r loopMS c atoMS now,
-    wf r loopMS /\ startS c * 1000 <= now /\ 0 <= tsbdS c /\ ato c = Some atoMS /\ 0 <= atoMS /\
-    1000 * en (segAt r 0) < atoMS * ts r /\
-    let se := generateTimelineEntries r (calcWrapTimes loopMS c now (1000 * tsbdS c)) atoMS in
-    0 <= se_lsi_nr se < window_last r c atoMS now /\
-    exists m, lookup r loopMS c ByTime (se_lsi_start se + se_lsi_dur se) now = TOk m /\
-              newNr m = startNr c + (se_lsi_nr se + 1).
-Proof. exact big_ato_witness. Qed.
-Print Assumptions C02_big_ato_refuted.
+(** An availabilityTimeOffset longer than the first segment (former finding, repaired in /repo by
+    11d2203): 4 x 2 s loop, offset 2.5 s, now = 7.9 s.  Segment 4 is available from 7.5 s on; the
+    timeline ends with it, it is served, and segment 5 is too early (for 1.6 s more). *)
+Example C02_big_ato_example :
+  wf ato_rep 8000 /\ 1000 * en (segAt ato_rep 0) < 2500 * ts ato_rep /\
+  generateTimelineEntries ato_rep (calcWrapTimes 8000 ato_cfg 7900 60000) 2500
+  = {| se_startNr := 0; se_entries := [{| e_t := 0; e_d := 180000; e_r := 4 |}];
+       se_lsi_nr := 4; se_lsi_start := 720000; se_lsi_dur := 180000 |} /\
+  window_last ato_rep ato_cfg 2500 7900 = 4 /\
+  lookup ato_rep 8000 ato_cfg ByTime 720000 7900
+  = TOk {| origTime := 0; newTime := 720000; origNr := 1; newNr := 4;
+           origDur := 180000; newDur := 180000; mtimescale := 90000 |} /\
+  lookup ato_rep 8000 ato_cfg ByTime 900000 7900 = TTooEarly 1600 /\
+  lookup ato_rep 8000 ato_cfg ByNumber 5 7900 = TTooEarly 1600.
+Proof. exact big_ato_example. Qed.
+Print Assumptions C02_big_ato_example.
 
 (** Non-vacuity: 4 x 2 s loop (testpic_2s/V300), start 30 s, startNumber 7, tsbd 10 s,
     availabilityTimeOffset 0.5 s, now = 100 s: segments 29..34 are listed, all served with their
